@@ -1088,6 +1088,8 @@ ecdsa_key_gen(ec_curve_p curve, bn_p d, ec_point_p Q) {
 	/* Reduce random number. */
 	/*  d = (c mod (n − 1)) + 1 */
 	BN_RET_ON_ERR(bn_mod_reduce(d, &curve->n, &curve->n_mod_rd_data));
+	if (0 != bn_is_zero(d)) /* 0 is not a private key. */
+		return (-1);
 	/* Q = dG */
 	BN_RET_ON_ERR(ec_point_mult_bp(d, curve, Q));
 	BN_RET_ON_ERR(ec_point_check_as_pub_key(Q, curve));
@@ -1894,7 +1896,8 @@ ecdsa_recover_pub_key_from_priv_key_be(ec_curve_p curve,
 	BN_RET_ON_ERR(ec_point_init(&Q, bits));
 	/* Key import. */
 	BN_RET_ON_ERR(bn_import_be_bin(&d, priv_key, priv_key_size));
-	if (bn_cmp(&d, &curve->n) >= 0) /* Key check. */
+	if (0 != bn_is_zero(&d) ||
+	    bn_cmp(&d, &curve->n) >= 0) /* Key check: [1, n - 1]. */
 		return (EINVAL);
 	/* Q = dG */
 	BN_RET_ON_ERR(ec_point_mult_bp(&d, curve, &Q));
@@ -1927,7 +1930,8 @@ ecdsa_recover_pub_key_from_priv_key_le(ec_curve_p curve,
 	BN_RET_ON_ERR(ec_point_init(&Q, bits));
 	/* Key import. */
 	BN_RET_ON_ERR(bn_import_le_bin(&d, priv_key, priv_key_size));
-	if (bn_cmp(&d, &curve->n) >= 0) /* Key check. */
+	if (0 != bn_is_zero(&d) ||
+	    bn_cmp(&d, &curve->n) >= 0) /* Key check: [1, n - 1]. */
 		return (EINVAL);
 	/* Q = dG */
 	BN_RET_ON_ERR(ec_point_mult_bp(&d, curve, &Q));
